@@ -417,23 +417,38 @@ func execSched(in Ev) []Ev {
 	next:
 	}
 drain:
-	// release anything still waiting (a schedule shorter than the program), then collect the results
-	go func() {
-		for m := range g.arrive {
-			g.release[m.p] <- struct{}{}
+	// a schedule shorter than the evaluations' accesses (an evaluation may make more of them than the schedule was written for):
+	// whoever still stands or arrives at a gate passes it, in the order of arrival - every access is recorded as a step
+	{
+		ps := []int{}
+		for p := range waiting {
+			ps = append(ps, p)
 		}
-	}()
-	for p := range waiting {
-		g.release[p] <- struct{}{}
+		sort.Ints(ps)
+		for _, p := range ps {
+			count[p]++
+			out = append(out, Ev{"op": "step", "p": p, "k": count[p], "what": waiting[p]})
+			delete(waiting, p)
+			g.release[p] <- struct{}{}
+		}
 	}
 	for nfin < procs {
 		select {
+		case m := <-g.arrive:
+			count[m.p]++
+			out = append(out, Ev{"op": "step", "p": m.p, "k": count[m.p], "what": m.what})
+			g.release[m.p] <- struct{}{}
 		case q := <-finished:
 			emitFinish(q)
 		case <-time.After(5 * time.Second):
 			nfin = procs
 		}
 	}
+	go func() { // (stragglers after a timeout)
+		for m := range g.arrive {
+			g.release[m.p] <- struct{}{}
+		}
+	}()
 	out = append(out, Ev{"op": "end", "snap": s.snapshot()})
 	return out
 }
